@@ -555,6 +555,10 @@ func runWeighted(run *core.Run) {
 	if run.Prop == "C04" || run.Prop == "C11" {
 		runWeightedFamilies(run, o)
 	}
+	if run.Prop == "C06" {
+		// (d) 16 goroutines build one shared model under the race detector; results compared with the sequential build
+		raceRun(run, "c06", run.N(150, 1500), run.N(1, 4))
+	}
 }
 
 // witnessModels are the concrete inputs of the defects found during design (DESIGN §6): replayed on every run.
